@@ -152,6 +152,8 @@ def _lean_expr(dag, i, ref, mode):
         return f"(if {r[0]} then {r[1]} else {r[2]})"
     if op == 'app':
         return '(' + ' '.join([app_name(aux)] + r) + ')'
+    if op == 'cut':
+        return ('CUT', aux)
     raise Untranslatable(f"emit: unknown op {op}")
 
 
@@ -184,27 +186,54 @@ def emit_program(name, inputs, outputs, ns='Gen'):
         if op == 'var' and aux not in inputs:
             raise Untranslatable(f"program {name}: free variable {aux} not among declared inputs")
     texts = {}
+    cut_ids = [i for i in allids if dag.items[i][0] == 'cut']
+    cut_names = {}
+    for i in cut_ids:
+        nm = dag.items[i][1]
+        if nm in cut_names.values():
+            nm = f"{nm}_{len(cut_names)}"
+        cut_names[i] = nm
     for mode in ('field', 'float'):
         ty = 'K' if mode == 'field' else 'Float'
         binders = []
+        argnames = []
         if mode == 'field':
             binders.append("{K : Type} [Field K] [LinearOrder K]")  # uniform binders: signatures must be stable
             if 'sqrt' in uses:
                 binders.append("(sqrt : K → K)")
+                argnames.append('sqrt')
             if 'pw' in uses:
                 binders.append("(pw : K → K → K)")
+                argnames.append('pw')
             if 'sgn' in uses:
                 binders.append("(sgn : K → K)")
+                argnames.append('sgn')
         for f in sorted(fsyms):
             binders.append(f"({f} : " + ' → '.join([ty] * (fsyms[f] + 1)) + ")")
+            argnames.append(f)
         if inputs:
             binders.append("(" + ' '.join(inputs) + f" : {ty})")
+            argnames += list(inputs)
         lines = []
-        for oname, root in roots.items():
-            ids = dag.reachable([root])
-            # number of uses inside this slice
+
+        def emit_def(dname, root, stop_at_cut_root):
+            ids = []
+            seen = set()
+            stack = [root]
+            while stack:  # reachable, not descending through cut nodes other than the root
+                i = stack.pop()
+                if i in seen:
+                    continue
+                seen.add(i)
+                ids.append(i)
+                if dag.items[i][0] == 'cut' and i != root:
+                    continue
+                stack.extend(dag.items[i][2])
+            ids.sort()
             cnt = {}
             for i in ids:
+                if dag.items[i][0] == 'cut' and i != root:
+                    continue
                 for c in dag.items[i][2]:
                     cnt[c] = cnt.get(c, 0) + 1
             names = {}
@@ -214,8 +243,14 @@ def emit_program(name, inputs, outputs, ns='Gen'):
 
             body = []
             k = 0
-            for i in ids:  # ids are sorted = topological (children have smaller ids)
+            for i in ids:
                 op = dag.items[i][0]
+                if op == 'cut' and i != root:
+                    names[i] = '(' + ' '.join([f"{name}_{cut_names[i]}"] + argnames) + ')'
+                    continue
+                if op == 'cut':
+                    names[i] = names[dag.items[i][2][0]]
+                    continue
                 e = _lean_expr(dag, i, ref, mode)
                 if op in ('var',):
                     names[i] = e
@@ -228,13 +263,17 @@ def emit_program(name, inputs, outputs, ns='Gen'):
                     nm = f"x{k}"
                     body.append(f"  let {nm} : {ty} := {e}" if op != 'cmp' else f"  let {nm} := {e}")
                     names[i] = nm
-            rty = 'Prop' if dag.items[root][0] == 'cmp' and mode == 'field' else \
-                ('Bool' if dag.items[root][0] == 'cmp' else ty)
-            dec = ''
-            lines.append(f"def {name}_{oname} " + ' '.join(binders) + f" : {rty} :=")
-            lines += body
+            rop = dag.items[root][0]
+            rty = 'Prop' if rop == 'cmp' and mode == 'field' else ('Bool' if rop == 'cmp' else ty)
+            lines.append(f"def {dname} " + ' '.join(binders) + f" : {rty} :=")
+            lines.extend(body)
             lines.append(f"  {names[root]}")
             lines.append("")
+
+        for i in cut_ids:  # ids are topological: inner cuts first
+            emit_def(f"{name}_{cut_names[i]}", i, True)
+        for oname, root in roots.items():
+            emit_def(f"{name}_{oname}", root, False)
         texts[mode] = '\n'.join(lines)
     sig = dict(name=name, inputs=list(inputs), outputs=list(outputs), fsyms=dict(sorted(fsyms.items())),
                uses=sorted(uses), ns=ns)
@@ -292,6 +331,8 @@ def eval_dag(dag, root, env, funcs):
             v = a[1] if a[0] else a[2]
         elif op == 'app':
             v = funcs[app_name(aux)](*a)
+        elif op == 'cut':
+            v = a[0]
         else:
             raise Untranslatable(op)
         vals[i] = v
